@@ -11,7 +11,5 @@ CONSTANTS
   ProgChoices <- ChoicesCore2
   NoLock = {"rg"}
   LazyMap = FALSE
-INVARIANTS TypeOK MutualExclusion OwnerConsistent AtMostOneLockHeld GuardedWrite UnlockedReadsOnlyWhereDoubleChecked
-  InitOnce BuiltIffPublished UniqueScannerIds ReadStable StringPoolIdsFunctional LockedPoolConstant
-PROPERTIES PoolAppendOnly
+INVARIANTS InitOnce
 CHECK_DEADLOCK TRUE
